@@ -474,6 +474,45 @@ def guarded(f, t=1.0):
         signal.signal(signal.SIGPROF, old)
 
 
+def debug_metamorphic(ctx, n):
+    """what a results name reports does not depend on diagnostics: the same grammar (names, list-all names, value-returning
+    actions) gives the same tokens and names with quiet debug actions set on every node (the debug / fail-action branch of
+    _parseNoCache is a second copy of the action loop)"""
+    import pyparsing as pp
+    from tools.harness import observe, dump
+    rng = ctx.rng
+    opts = dict(names=True, actions=True, stops=False, fwd=True, extra=True, ws=False)
+    quiet = lambda *a: None
+    fixed = [(("and", ("namestar", "v", ("act", ("upper",), ("word", "ab"))), ("star", ("and", ("lit", ","), ("namestar", "v", ("act", ("upper",), ("word", "ab")))))), gen.ENV0, "a, b, ab"),
+             (("plus", ("name", "v", ("act", ("upper",), ("word", "ab")))), gen.ENV0, "a b"),
+             (("and", ("namestar", "v", ("act", ("upper",), ("word", "ab"))), ("namestar", "v", ("word", "ab"))), gen.ENV0, "a b")]
+    cases = list(fixed)
+    for i in range(n):
+        g = gen.rand_grammar(rng, rng.randint(1, 4), opts)
+        env = rng.choice([gen.ENV0, gen.ENV_EXPR])
+        cases.append((g, env, gen.sample_input(rng, g, env)))
+    for g, env, inp in cases:
+        def run(dbg):
+            root = build.Builder(env).build_all(g)
+            if dbg:
+                for node in list(root.visit_all()):
+                    node.set_debug_actions(quiet, quiet, quiet)
+            return observe.run_real(root, dump.Dumper(), inp, ("none",), ("parse", False))
+        try:
+            a, b = run(False), run(True)
+        except build.Unbuildable:
+            continue
+        ctx.stat("debug_metamorphic_cases")
+        if a[0] != "ok" or b[0] != "ok":
+            continue
+        va, vb = view_of_real(a[1]), view_of_real(b[1])
+        ctx.case("debug-names:%r|%r" % (g, inp), nontrivial=len(va[1]) > 0, agreed=True)
+        if va != vb:
+            ctx.violation("debug-changes-names:%r|%r" % (g, inp),
+                          "%r on %r: tokens / names / list-all names are %r, with quiet debug actions on every node %r" % (g, inp, va, vb),
+                          {"kind": "debug-names", "grammar": g, "env": env, "input": inp})
+
+
 def oracle_pair(g1, g2, env, s1, s2):
     """compositional checks on the implementation; returns list of (key, description)"""
     import pyparsing as pp
@@ -569,6 +608,7 @@ def correspond(ctx):
     for r in recs:
         named = r["real"][0] == "ok" and len(r["real"][1][2]) > 0
         ctx.case(pcommon.key_of(r), named, r.get("agree", True))
+    debug_metamorphic(ctx, 300 if not ctx.thorough else 3000)
     # (ii) compositional oracle
     npairs = 250 if not ctx.thorough else 2500
     nbad = 0
